@@ -422,6 +422,17 @@ impl<R: Read + Seek> Seek for CompressionLayerReader<'_, R> {
                         let old_state =
                             std::mem::replace(&mut self.state, CompressionLayerReaderState::Empty);
                         let mut inner = old_state.into_inner();
+                        if self
+                            .sizes_info
+                            .as_ref()
+                            .is_some_and(|sizes_info| pos == sizes_info.max_uncompressed_pos())
+                        {
+                            // Seeking exactly at the end of the stream is
+                            // valid; there is nothing left to decompress
+                            self.state = CompressionLayerReaderState::Ready(inner);
+                            self.underlayer_pos = pos;
+                            return Ok(pos);
+                        }
                         self.sync_inner_with_uncompressed_pos(&mut inner, rounded_pos)?;
 
                         // New decompressor at the start of the block
